@@ -229,7 +229,7 @@ def bounded(tier, seed):
     res = native("interpolation.py", {"seed": seed, "n": n}, timeout=3000)
     if not res.get("ok"):
         raise RuntimeError(f"native driver failed: {res}")
-    return [{"name": "interpolate_and_insert_on_random_grids", "bound": f"{n} random grids (all classes, 1-3 axes, periodic or not) x points at centres / interior / seams; affine fields; compiled vs interpreted insert",
+    return [{"name": "interpolate_and_insert_on_random_grids", "bound": f"{n} random grids (all classes, 1-3 axes, periodic or not) x points at centres / interior / seams; affine fields; compiled vs interpreted insert; fixed witnesses: wall values next to corners, anti-periodic seam, integer-typed field",
              "cases": res["cases"], "failures": res["failures"]}]
 
 
